@@ -100,3 +100,10 @@ pub open spec fn enc_a(b: u8) -> Seq<char> {
     else if 0x20 <= b <= 0x7e { seq![b as char] }
     else { seq!['\\', 'x'] + hex2(b) }
 }
+
+// ------------------------------------------------------------------ newline helpers
+pub open spec fn ends_nl(b: Seq<u8>) -> bool { b.len() > 0 && b.last() == 10u8 }
+/// the line without its trailing LF characters
+pub open spec fn strip_nl(b: Seq<u8>) -> Seq<u8> decreases b.len() {
+    if ends_nl(b) { strip_nl(b.drop_last()) } else { b }
+}
